@@ -56,10 +56,11 @@ class Acc:
 
 
 class BBlock:
-    __slots__ = ("name", "attrs", "lines", "tag_line", "content", "expect", "desc", "inline_first")
+    __slots__ = ("name", "attrs", "lines", "tag_line", "content", "expect", "desc", "inline_first", "inline_last", "first_offset")
 
-    def __init__(self, attrs, lines, desc=None, inline_first=None):
-        self.attrs, self.lines, self.desc, self.inline_first = attrs, lines, desc, inline_first
+    def __init__(self, attrs, lines, desc=None, inline_first=None, inline_last=None):
+        self.attrs, self.lines, self.desc, self.inline_first, self.inline_last = attrs, lines, desc, inline_first, inline_last
+        self.first_offset = 0
         self.name = None
         self.tag_line = None
         self.content = None
@@ -84,14 +85,20 @@ def build_file(blocks, style="hash", eol="\n", prefix="b"):
             end = "// </block>"
             first = b.inline_first or ""
         b.tag_line = line
+        b.first_offset = len(tag.encode("utf-8"))
         out.append(tag + first + eol)
         line += 1
         for ln in b.lines:
             out.append(ln + eol)
             line += 1
-        out.append(end + eol)
+        if style != "hash" and b.inline_last is not None:
+            # the last content line shares its line with the end-tag comment
+            out.append(b.inline_last + " /* </block> */" + eol)
+            b.content = first + eol + "".join(ln + eol for ln in b.lines) + b.inline_last + " "
+        else:
+            out.append(end + eol)
+            b.content = first + eol + "".join(ln + eol for ln in b.lines)
         line += 1
-        b.content = first + eol + "".join(ln + eol for ln in b.lines)
     return "".join(out)
 
 
@@ -144,7 +151,7 @@ def run_batch(ctx, blocks, style, code, model, eol="\n", flavour="rel", check_po
     for b in blocks:
         exp = model(b)
         got = by_name.pop(b.name, [])
-        key = key_fn(b) if key_fn else h([b.attrs, b.lines, b.inline_first, style, eol])
+        key = key_fn(b) if key_fn else h([b.attrs, b.lines, b.inline_first, b.inline_last, style, eol])
         nontriv = nontrivial_fn(b) if nontrivial_fn else len([l for l in b.lines if l.strip()]) >= 2
         sets = sets_fn(b, exp) if sets_fn else {}
         problem = None
@@ -166,17 +173,20 @@ def run_batch(ctx, blocks, style, code, model, eol="\n", flavour="rel", check_po
                         problem = ("data", "data %s != expected %s" % (d.get("data"), exp["data"]))
                 elif check_positions:
                     want_line = b.tag_line + exp["line_idx"]
+                    off = b.first_offset if exp["line_idx"] == 0 else 0      # content line 0 starts after the tag's comment
+                    c1, c2 = exp["c1"] + off, exp["c2"] + off
                     s, e = rng_.get("start", {}), rng_.get("end", {})
                     ok = (s.get("line") == want_line and e.get("line") == want_line
-                          and s.get("character") == exp["c1"] and e.get("character") == exp["c2"])
+                          and s.get("character") == c1 and e.get("character") == c2)
                     if ok:
                         src = lines[want_line - 1].encode("utf-8")
-                        ok = src[exp["c1"] - 1:exp["c2"]].decode("utf-8", "replace") == exp["key"]
+                        ok = src[c1 - 1:c2].decode("utf-8", "replace") == exp["key"]
                     if not ok:
                         problem = ("wrong-key", "designates %s, expected line %d cols %d-%d (key %r)" % (
                             rng_, want_line, exp["c1"], exp["c2"], exp["key"]))
         if problem:
             one = build_file([_clone(b)], style, eol)
+            b.first_offset = b.first_offset
             cases.append(Case(VIOLATED, key=key, nontrivial=nontriv, sig="%s/%s" % (sig_prefix, problem[0]),
                               summary="block %s: %s; attrs=%s lines=%r" % (b.name, problem[1], b.attrs, b.lines[:12]),
                               witness={"attrs": b.attrs, "lines": b.lines, "inline_first": b.inline_first,
@@ -205,4 +215,4 @@ def run_batch(ctx, blocks, style, code, model, eol="\n", flavour="rel", check_po
 
 
 def _clone(b):
-    return BBlock(list(b.attrs), list(b.lines), b.desc, b.inline_first)
+    return BBlock(list(b.attrs), list(b.lines), b.desc, b.inline_first, b.inline_last)
